@@ -293,7 +293,50 @@ def r16_drop_methods(text, log, names):
     return text
 
 
-STRUCTURAL = {"R16m": r16_drop_methods, "R12d": r12_debug_assert, "R5": r5_for_bytes, "R7": r7_mut_self, "R0": r0_named_return, "R4": r4_format, "R12": r12_unreachable,
+def r14_all(text, log):
+    """R14: a fn whose whole body is `X.iter().all(|PAT| C)` becomes the std definition of Iterator::all as a loop:
+    `for kv__ in it: X.iter() { let PAT = kv__; if !(C) { return false; } } true`."""
+    bo, bc = fn_body_open(text)
+    m = L.mask(text)
+    body = text[bo + 1:bc]
+    mt = re.fullmatch(r"\s*([\w.]+)\.iter\(\)\.all\(\|(.+?)\|\s*(.+)\)\s*", body, re.S)
+    if not mt:
+        raise Lost("R14: body is not a single `X.iter().all(|PAT| C)` expression")
+    x, pat, cond = mt.group(1), mt.group(2).strip(), mt.group(3).strip()
+    new = f"\n        for kv__ in it: {x}.iter() {{\n            let {pat} = kv__;\n            if !({cond}) {{\n                return false;\n            }}\n        }}\n        true\n    "
+    log.append({"rule": "R14-all", "before": body.strip(), "after": new.strip()})
+    return text[:bo + 1] + new + text[bc:]
+
+
+def r11_closure(text, log, spec):
+    """R11: give the closure bound by `let NAME = |params| BODY;` typed parameters and a requires/ensures clause.
+    The parameter names must be the ones the contract was written for (else lost anchor)."""
+    m = L.mask(text)
+    mt = re.search(r"\blet\s+" + re.escape(spec["name"]) + r"\s*=\s*\|", m)
+    if not mt:
+        raise Lost(f"R11: closure `{spec['name']}` not found")
+    p0 = mt.end()
+    p1 = m.index("|", p0)
+    names = [x.split(":")[0].strip() for x in text[p0:p1].split(",") if x.strip()]
+    want = [n for n, _ in spec["params"]]
+    if names != want:
+        raise Lost(f"R11: closure `{spec['name']}` has parameters {names}, contract written for {want}")
+    end = L.depth0_find(m, p1 + 1, len(m), ";")
+    if end < 0:
+        raise Lost("R11: closure end not found")
+    body = text[p1 + 1:end].strip()
+    # a typed closure may already carry `-> T`: drop it, the contract names the result
+    body = re.sub(r"^->\s*[\w<>:]+\s*", "", body)
+    typed = ", ".join(f"{n}: {t}" for n, t in spec["params"])
+    head = f"|{typed}| -> ({spec['ret']})\n"
+    if spec.get("requires"):
+        head += f"            requires {spec['requires']},\n"
+    head += f"            ensures {spec['ensures']},\n        "
+    log.append({"rule": "R11-closure-spec", "before": text[mt.end() - 1:p1 + 1], "after": head.strip()})
+    return text[:mt.end() - 1] + head + "{ " + body + " }" + text[end:]
+
+
+STRUCTURAL = {"R11c": r11_closure, "R14": r14_all, "R16m": r16_drop_methods, "R12d": r12_debug_assert, "R5": r5_for_bytes, "R7": r7_mut_self, "R0": r0_named_return, "R4": r4_format, "R12": r12_unreachable,
               "R6": r6_for_enumerate, "R10": r10_drop_loop}
 
 
